@@ -63,6 +63,19 @@ class Rec:
 @dataclass
 class FuncVal:
     node: ast.FunctionDef
+    closure: Optional[Dict[str, Any]] = None        # defining environment of a nested function
+    bound_self: Any = None                           # receiver of a bound method
+    home: Optional[str] = None                       # module (repo-relative path) whose names the body refers to
+
+
+@dataclass
+class ClassVal:
+    """a repository class made foldable: calling it folds __init__, attribute/method access folds properties/methods"""
+    name: str
+    methods: Dict[str, ast.FunctionDef]
+    properties: Dict[str, ast.FunctionDef]
+    home: Optional[str] = None
+    method_home: Optional[Dict[str, str]] = None
 
 
 class _Return(Exception):
@@ -87,8 +100,9 @@ def make_gate(args: List[Any], kwargs: Dict[str, Any]) -> Rec:
 class Folder:
     def __init__(self, env: Optional[Dict[str, Any]] = None, ctors: Optional[Dict[str, Callable]] = None,
                  opaque_unknown: bool = False, isinstance_hook: Optional[Callable] = None,
-                 resolver: Optional[Callable[[str], Any]] = None):
+                 resolver: Optional[Callable[[str], Any]] = None, resolver_factory: Optional[Callable[[str], Callable]] = None):
         self.resolver = resolver
+        self.resolver_factory = resolver_factory
         self.env: Dict[str, Any] = dict(env or {})
         self.ctors = {"Gate": make_gate}
         if ctors:
@@ -163,7 +177,7 @@ class Folder:
                     self.env.setdefault(al.asname or al.name, Opaque(f"{s.module}.{al.name}"))
             return
         if isinstance(s, (ast.FunctionDef,)):
-            self.env[s.name] = FuncVal(s)
+            self.env[s.name] = FuncVal(s, closure=self.env)
             return
         if isinstance(s, ast.Try):
             try:
@@ -203,7 +217,10 @@ class Folder:
                 raise Undecidable(f"store into {norm(t.value)}")
         elif isinstance(t, ast.Attribute):
             obj = self.expr(t.value)
-            if isinstance(obj, Rec):
+            if isinstance(obj, Rec) and t.attr == "__dict__" and isinstance(v, dict):
+                obj.fields.clear()
+                obj.fields.update(v)
+            elif isinstance(obj, Rec):
                 obj.fields[t.attr] = v
             else:
                 raise Undecidable(f"attribute store {norm(t)}")
@@ -234,6 +251,8 @@ class Folder:
                 return {"True": True, "False": False, "None": None}[e.id]
             if e.id == "pi":
                 return sp.pi
+            if e.id in ("int", "float", "bool", "str", "list", "dict", "tuple", "complex"):
+                return Opaque("type:" + e.id)
             if self.resolver is not None:
                 r = self.resolver(e.id)
                 if r is not None:
@@ -252,6 +271,13 @@ class Folder:
             if isinstance(base, Rec):
                 if e.attr in base.fields:
                     return base.fields[e.attr]
+                cv = getattr(base, "cls_val", None)
+                if cv is not None and e.attr in cv.properties:
+                    return self.call_funcval(FuncVal(cv.properties[e.attr], closure=None, bound_self=base, home=(cv.method_home or {}).get(e.attr, cv.home)), [], {})
+                if cv is not None and e.attr in cv.methods:
+                    return FuncVal(cv.methods[e.attr], closure=None, bound_self=base, home=(cv.method_home or {}).get(e.attr, cv.home))
+                if e.attr == "__dict__":
+                    return base.fields
                 raise Undecidable(f"field {e.attr} of {base.cls}")
             if isinstance(base, Opaque):
                 return Opaque(f"{base.text}.{e.attr}")
@@ -431,6 +457,56 @@ class Folder:
             raise Undecidable(f"symbolic comparison {norm(node)}")
         return {ast.Lt: lambda: a < b, ast.LtE: lambda: a <= b, ast.Gt: lambda: a > b, ast.GtE: lambda: a >= b}[type(op)]()
 
+    def call_funcval(self, fv: "FuncVal", args, kwargs):
+        base_env = dict(fv.closure) if fv.closure is not None else ({} if fv.home else dict(self.env))
+        res = self.resolver
+        if fv.home and self.resolver_factory is not None:
+            res = self.resolver_factory(fv.home)
+            base_env.setdefault("np.pi", sp.pi)
+        sub = Folder(env=base_env, ctors=None, opaque_unknown=self.opaque_unknown, isinstance_hook=self.isinstance_hook, resolver=res,
+                     resolver_factory=self.resolver_factory)
+        sub.ctors = self.ctors
+        fa = fv.node.args
+        names = [a.arg for a in fa.posonlyargs + fa.args]
+        args = list(args)
+        if fv.bound_self is not None:
+            args = [fv.bound_self] + args
+        bind = dict(zip(names, args))
+        extra = args[len(names):]
+        if fa.vararg is not None:
+            bind[fa.vararg.arg] = tuple(extra)
+        elif extra:
+            raise Undecidable(f"too many arguments for {fv.node.name}")
+        kw_extra = {}
+        kwonly = [a.arg for a in fa.kwonlyargs]
+        for k, v in kwargs.items():
+            if k in names or k in kwonly:
+                bind[k] = v
+            else:
+                kw_extra[k] = v
+        if fa.kwarg is not None:
+            bind[fa.kwarg.arg] = kw_extra
+        elif kw_extra:
+            raise Undecidable(f"unexpected keyword(s) {sorted(kw_extra)} for {fv.node.name}")
+        for a, dflt in zip(names[len(names) - len(fa.defaults):], fa.defaults):
+            if a not in bind:
+                bind[a] = sub.expr(dflt)
+        for a, dflt in zip(fa.kwonlyargs, fa.kw_defaults):
+            if a.arg not in bind and dflt is not None:
+                bind[a.arg] = sub.expr(dflt)
+        missing = [a for a in names if a not in bind]
+        if missing:
+            raise Undecidable(f"missing argument(s) {missing} for {fv.node.name}")
+        return sub.run_function(fv.node, bind)
+
+    def instantiate(self, cv: "ClassVal", args, kwargs):
+        obj = Rec(cv.name, {})
+        obj.cls_val = cv
+        init = cv.methods.get("__init__")
+        if init is not None:
+            self.call_funcval(FuncVal(init, closure=None, bound_self=obj, home=(cv.method_home or {}).get("__init__", cv.home)), args, kwargs)
+        return obj
+
     def call(self, e: ast.Call):
         fn = norm(e.func)
         if fn == "isinstance" and len(e.args) == 2:
@@ -458,7 +534,15 @@ class Folder:
                 args.extend(self.expr(a.value))
             else:
                 args.append(self.expr(a))
-        kwargs = {k.arg: self.expr(k.value) for k in e.keywords}
+        kwargs = {}
+        for k in e.keywords:
+            if k.arg is None:
+                kwargs.update(self.expr(k.value))
+            else:
+                kwargs[k.arg] = self.expr(k.value)
+        if fn in ("Counter", "collections.Counter"):
+            import collections
+            return collections.Counter(*args, **kwargs)
         if fn in self.ctors:
             return self.ctors[fn](args, kwargs)
         if fn == "isinstance" and len(args) == 2:
@@ -467,6 +551,11 @@ class Folder:
                 if r is not None:
                     return r
             raise Undecidable(f"isinstance({args[0]!r}, {norm(e.args[1])})")
+        if fn in ("next", "iter") and not kwargs:
+            try:
+                return {"next": next, "iter": iter}[fn](*args)
+            except Exception as ex:
+                raise Undecidable(f"{fn}: {ex}")
         if fn in ("dict", "list", "set", "tuple", "sorted", "len", "str", "frozenset", "reversed", "range", "abs", "int", "float", "max", "min", "sum", "zip", "enumerate") and not kwargs:
             if fn in ("int", "float") and len(args) == 1 and isinstance(args[0], str):
                 try:
@@ -543,24 +632,22 @@ class Folder:
                 return Opaque(f"{obj.text}.{m}", tuple(args), tuple(sorted(kwargs.items(), key=lambda kv: kv[0])))
             if isinstance(obj, Rec) and (obj.cls, m) in self.ctors:
                 return self.ctors[(obj.cls, m)](obj, args, kwargs)
+            cvo = getattr(obj, "cls_val", None) if isinstance(obj, Rec) else None
+            if cvo is not None and m in cvo.methods:
+                return self.call_funcval(FuncVal(cvo.methods[m], closure=None, bound_self=obj, home=(cvo.method_home or {}).get(m, cvo.home)), args, kwargs)
+            if isinstance(obj, (dict,)) and m in ("update", "pop", "setdefault", "clear"):
+                return getattr(obj, m)(*args, **kwargs)
+            if isinstance(obj, (set, frozenset)) and m in ("union", "intersection", "difference", "issubset") and not kwargs:
+                return frozenset(getattr(frozenset(obj), m)(*args))
         fv = None
         try:
             fv = self.expr(e.func)
         except Undecidable:
             fv = None
+        if isinstance(fv, ClassVal):
+            return self.instantiate(fv, args, kwargs)
         if isinstance(fv, FuncVal):
-            sub = Folder(env=dict(self.env), ctors=None, opaque_unknown=self.opaque_unknown, isinstance_hook=self.isinstance_hook,
-                         resolver=self.resolver)
-            sub.ctors = self.ctors
-            fa = fv.node.args
-            names = [a.arg for a in fa.posonlyargs + fa.args]
-            bind = dict(zip(names, args))
-            bind.update(kwargs)
-            defaults = fa.defaults
-            for a, dflt in zip(names[len(names) - len(defaults):], defaults):
-                if a not in bind:
-                    bind[a] = sub.expr(dflt)
-            return sub.run_function(fv.node, bind)
+            return self.call_funcval(fv, args, kwargs)
         if isinstance(fv, Opaque):
             return Opaque(fv.text, tuple(args), tuple(sorted(kwargs.items(), key=lambda kv: kv[0])))
         raise Undecidable(f"call {fn}")
